@@ -58,6 +58,10 @@ CHECKS = {
    text="Two real Btp ends joined by FIFO queues: BFS over all interleavings of submit/poll/deliver/fetch/ack-timer steps (incl. states next to the 8-bit sequence wrap) with delivery, window, ack-deadline and bounded-liveness oracles in every state; plus, at every state of a conforming conversation, injection of a full boundary catalog of hostile data and handshake segments against a reference of what must be refused.",
    note="GATT is ordered and lossless; ack deadline checked when the application has fetched every complete message; a hostile handshake on an established session only has to be survived.",
    tech="explicit-state BFS over interleavings of the real implementation + exhaustive fault (segment) injection per visited state"),
+ "C19": dict(cat="exploration",
+   text="Full product, within the catalogs, of valid base chains (with / without intermediate, fabric id present / absent in ICAC and RCAC, 0-3 CATs, unbounded / windowed / exactly-now validity, root path length, harmless extra key-usage bits and non-critical unknown extensions, reliable clock vs last-known-good time) x every single defect (one signature bit of each certificate - thorough: every bit -, each issuer-name attribute, authority / subject key ids, each validity bound incl. off-by-one second, each basic-constraints / key-usage / extended-key-usage rule of leaf and authorities, path length, critical unknown extension, missing / foreign node and fabric ids, swapped / repeated certificates, leaf as authority, authority as leaf, look-alike root, broken root signature, leaf key not the requested one, fabric already present) x five real entry points: the chain verifier, AddTrustedRootCertificate + CSRRequest + AddNOC, CSRRequest + UpdateNOC on the fail-safe context, and a real CASE handshake with the chain presented by the initiator and by the responder. Oracle: a predicate on the generator parameters - accepted exactly when no defect was applied.",
+   note="Certificates come from a harness-side writer; the to-be-signed bytes are produced by the repo's own TLV->X.509 conversion (C17's subject). One defect per chain. Not judged (reported as observations): fabric id of an authority differing from the leaf's, root offered as intermediate, CA certificate as leaf at the bare verifier API.",
+   tech="bounded exhaustive input enumeration (single-fault catalog over generated chains) against a reference predicate, on the real verification / installation / handshake paths"),
  "C20": dict(cat="model_checking",
    text="One real device and up to 19 real initiator nodes over the adversarial network and virtual clock. Exhaustive within the bounds: every sequence of up to k attempts over 13 attempt kinds (CASE/PASE complete, initiator vanishing after its n-th handshake message, n-th message garbled, wrong passcode), sequential or concurrent; the device's responder future cancelled and restarted after every number of polls up to a bound during each attempt kind; 15-18 completed or abandoned handshakes against the 16-slot session table. After 200 s of quiet virtual time the device's tables must hold no reserved session slot and no occupied exchange slot, no more secure sessions than handshakes its side completed, no session with a live exchange may have been evicted, and a fresh CASE handshake and (window open) a fresh PASE handshake must succeed (retrying on busy).",
    note="An idle unsecured session without exchanges counts as free (evictable on demand); the mDNS resolve/browse rendezvous slots are not driven; initiators that are told busy retry up to three times.",
